@@ -484,7 +484,8 @@ class TheJoker:
 
             pm.Deterministic("logp", model.logp())
 
-            dist = pm.Normal.dist(model.model_rv, data.rv_err.value)
+            # the same jitter-inflated uncertainty (in the data's RV unit) as 'obs'
+            dist = pm.Normal.dist(model.model_rv, err)
             lnlike = pm.Deterministic(
                 "ln_likelihood", pm.logp(dist, data.rv.value).sum(axis=-1)
             )
